@@ -2,9 +2,9 @@
    the pipeline with all structural facts, and the conjuncts of check_wf one by one. *)
 From Coq Require Import List ZArith Bool Lia Arith.
 From DD Require Import Model.Circuit Model.LexerD4 Model.LoadC2d Model.LoadD4 Spec.D4Sem Spec.D4Conform
-  Proofs.PassLemmas Proofs.LoadD4Graph Proofs.LoadD4Ops Proofs.LoadD4Fold Proofs.LoadD4Flat Proofs.LoadD4Iso
+  Proofs.PassLemmas Proofs.Renum Proofs.LoadD4Graph Proofs.LoadD4Ops Proofs.LoadD4Fold Proofs.LoadD4Flat Proofs.LoadD4Iso
   Proofs.LoadD4Pass2 Proofs.LoadD4Pass2S Proofs.LoadD4Struct Proofs.LoadD4Pass3 Proofs.LoadD4Free
-  Proofs.LoadD4Parse Proofs.LoadD4Sem Proofs.LoadD4Conf Proofs.LoadD4Det Proofs.LoadD4Vars Proofs.LoadD4Dec Proofs.LoadD4Smooth.
+  Proofs.LoadD4Parse Proofs.LoadD4Sem Proofs.LoadD4Conf Proofs.LoadD4Det Proofs.LoadD4Vars Proofs.LoadD4Dec Proofs.LoadD4Smooth Proofs.LoadD4Complete.
 Import ListNotations.
 Local Open Scope nat_scope.
 
@@ -55,6 +55,7 @@ Record run_facts (b : bstate) (root1 : nat) (s1 : lstate) (g2 : sgraph) (s3 : ls
   rf_prov1 : lprov (bs_ls b) s1 [root1];
   rf_alive0 : sg_alive (ls_g (bs_ls b)) 0 = true;
   rf_feats : free_feats (bs_occ b) (seq 1 NN) root1 s1;
+  rf_root0 : root1 = 0 -> forall f, In f (seq 1 NN) -> mem f (bs_occ b) = true;
   rf_ok1 : tables_ok P true s1;
   rf_pass2 : pass2 (ls_g s1) root1 = Some g2;
   rf_step2 : step_ok (ls_g s1) g2;
@@ -103,7 +104,9 @@ Proof.
   pose proof (gr_val _ _ Hg3 a0 root1 b0 Hv2) as Hv3.
   pose proof (rebuild_iso (ls_g s3) root1 order C (co_inv _ _ _ (proj1 Hok3)) (co_src _ _ _ (proj1 Hok3) eq_refl)
                 (GV_GDef _ _ _ _ Hv3) Ed Ef) as Hiso.
-  constructor; auto. now rewrite En.
+  constructor; auto; [now rewrite En|].
+  intros E f Hf. subst root1.
+  exact (add_free_root0 rc (bs_occ b) (seq 1 NN) (bs_ls b) s1 (co_inv _ _ _ (proj1 Hok0)) H0 Efree f Hf).
 Qed.
 
 (* ---------- the easy conjuncts ---------- *)
@@ -235,5 +238,74 @@ Proof.
   apply (iso_smooth _ _ _ _ HI). intros x Hx Hl. apply Ssm; [|exact Hl].
   exact (iso_closed _ _ _ _ S HI Sr Scl x Hx).
 Qed.
+
+(* completeness *)
+Lemma wf_root2 : exists v, GVs g2 root1 v /\ forall f, 1 <= f <= NN -> In (Z.of_nat f) v.
+Proof.
+  destruct wf_vars2 as [A2 _].
+  pose proof (rf_rep _ _ _ _ _ _ RF) as HR. pose proof (rf_step2 _ _ _ _ _ _ RF) as Hst.
+  pose proof (rf_root2 _ _ _ _ _ _ RF) as Hr2.
+  destruct (GDef_vars g2 root1 (A2 root1 Hr2)) as [v Hv]. exists v. split; [exact Hv|]. intros f Hf.
+  destruct (decl_facts_free toks n0 b root1 s1 HR (rf_free _ _ _ _ _ _ RF)) as [Hd1 He1].
+  (* the label of a new root *)
+  assert (Hroot : root1 <> 0 -> sg_label g2 root1 = Some GAnd /\
+                    exists tris, sg_out (ls_g s1) root1 = tris ++ [0]).
+  { intros Hne. destruct (rf_free _ _ _ _ _ _ RF) as [[E _]|[_ [Hl [_ [tris [Ho _]]]]]]; [contradiction|].
+    split; [|now exists tris].
+    destruct (sh_label _ _ (so_sh _ _ Hst) root1 Hr2) as [E|[E _]]; congruence. }
+  destruct (mem f (bs_occ b)) eqn:Em.
+  - (* a mentioned feature: below node 0 *)
+    apply mem_true_In in Em. apply (rp_occ _ _ _ _ _ HR) in Em. destruct Em as [from [to [fs [Hin Hfs]]]].
+    assert (Hment : In f (all_mentioned toks)) by (apply all_mentioned_In; now exists from, to, fs).
+    assert (Hx0 : nth_error (bs_idx b) 0 = Some 0).
+    { destruct (nth_error (bs_idx b) 0) as [x|] eqn:E; [now rewrite (rp_first _ _ _ _ _ HR x E)|].
+      apply nth_error_None in E. pose proof (Forall2_len _ _ _ (rp_decl _ _ _ _ _ HR)) as HL.
+      destruct (cf_split toks n0 Hconf) as [H1 _]. unfold nk in H1. lia. }
+    destruct (mentioned_root toks n0 Hconf (bs_idx b) (ls_g s1) g2 Hd1 He1 Hst A2 0 f Hx0 Hment) as [v0 [Hv0 [Hin0 Hnt]]].
+    destruct (Nat.eq_dec root1 0) as [E|Hne]; [rewrite E in Hv; now rewrite (GF_det hvars g2 0 v v0 Hv Hv0)|].
+    destruct (Hroot Hne) as [Hl2 [tris Ho]].
+    assert (H01 : In 0 (sg_out (ls_g s1) root1)) by (rewrite Ho; apply in_or_app; right; now left).
+    destruct (s2_and _ _ (so_s2 _ _ Hst) root1 0 Hl2 H01) as [H02|H02]; [|contradiction].
+    exact (gate_has g2 root1 GAnd v 0 v0 _ Hl2 eq_refl Hv H02 Hv0 Hin0).
+  - (* an unmentioned feature: a triangle below the new root *)
+    assert (Hne : root1 <> 0).
+    { intros E. rewrite (rf_root0 _ _ _ _ _ _ RF E f) in Em; [discriminate|]. apply in_seq. lia. }
+    destruct (Hroot Hne) as [Hl2 _].
+    destruct (rf_feats _ _ _ _ _ _ RF) as [E|[tris [Ho Htr]]]; [contradiction|].
+    assert (Hff : In f (rev (filter (fun i => negb (mem i (bs_occ b))) (seq 1 NN)))).
+    { apply -> in_rev. apply filter_In. split; [apply in_seq; lia|now rewrite Em]. }
+    destruct (Forall2_In_l _ _ _ _ Htr Hff) as [o [Ho' Hlk]].
+    pose proof (proj2 (rf_ok2 _ _ _ _ _ _ RF) f o Hlk) as Htn. cbn [with_g ls_g] in Htn.
+    assert (Ho1 : In o (sg_out (ls_g s1) root1)) by (rewrite Ho; apply in_or_app; now left).
+    destruct (s2_and _ _ (so_s2 _ _ Hst) root1 o Hl2 Ho1) as [Ho2|Ho2].
+    + apply (gate_has g2 root1 GAnd v o _ _ Hl2 eq_refl Hv Ho2 (tri_vars g2 f o Htn)). now left.
+    + destruct Htn as [_ [Hlo _]]. congruence.
+Qed.
+
+Lemma wf_complete : complete C n' = true.
+Proof.
+  destruct wf_vars2 as [A2 D2]. destruct wf_root2 as [v2 [Hv2 Hall]].
+  destruct (pass3_invariant_m rc ord Hord (litP_nz NN) (litP_sym NN)
+              (fun m s => vars_inv m s /\ exists v, GVs (ls_g s) root1 v /\ seteq v v2)
+              _ _ _ (rf_ok2 _ _ _ _ _ _ RF) (rf_pass3 _ _ _ _ _ _ RF)) as [m [_ [_ [v3 [Hv3 Hs3]]]]].
+  - intros m Em. split; [split; [exact A2|split; [exact D2|exact (get_literal_diffs_exact _ _ _ Em)]]|].
+    exists v2. split; [exact Hv2|apply seteq_refl].
+  - intros m sa sb nx _ Hoka _ [Hia [va [Hva Hsa]]] Hst. split; [exact (vars_inv_step ord Hperm Hndp m sa sb nx Hoka Hst Hia)|].
+    destruct (vars_step ord Hperm m sa sb nx root1 va Hoka Hst (proj2 (proj2 Hia)) Hva) as [vb [Hvb Hsb]].
+    exists vb. split; [exact Hvb|exact (seteq_trans _ _ _ Hsb Hsa)].
+  - rewrite (rf_n _ _ _ _ _ _ RF). apply (iso_complete _ _ _ _ NN v3 HI Hv3).
+    + intros y l Hl. exact (co_pos _ _ _ (proj1 (rf_ok3 _ _ _ _ _ _ RF)) y l Hl).
+    + intros f Hf. apply Hs3. now apply Hall.
+Qed.
+
+(* ---------- the whole check ---------- *)
+Theorem wf_all : check_wf C n' = true.
+Proof.
+  unfold check_wf. rewrite wf_nonempty, wf_idx_ok, wf_decomposable, wf_smooth, wf_complete, wf_det_cert,
+    wf_unique_leaves, wf_lits_nonzero, wf_all_reachable. reflexivity.
+Qed.
 End Conjuncts.
+
+Theorem load_d4_gen_wf : check_wf C n' = true.
+Proof. destruct run as [b [root1 [s1 [g2 [s3 [order RF]]]]]]. exact (wf_all b root1 s1 g2 s3 order RF). Qed.
 End Pipeline.
